@@ -1,5 +1,6 @@
 import SamplyModel.Lemmas.ContextSwitch
 import SamplyModel.Lemmas.ConvCs
+import SamplyModel.Lemmas.ConvCsRun
 /-!
 # C12 — CPU-time and off-CPU accounting conserve time for every switch/sample history
 
@@ -174,12 +175,12 @@ theorem C12_conv_step_switchOut (s : Conv.St) (pid tid t : Nat) (h0 : tid ≠ 0)
           (getThread (getByPid s pid).1 (getByPid s pid).2 tid).2.2 t) := rfl
   rw [e, if_neg h0]
 
-/-- **CPU time, converter level.** For the records of one thread incarnation (time-ordered), in a mode with an
+/-- **CPU time, thread level.** For the records of one thread incarnation (time-ordered), in a mode with an
 off-CPU indicator and an interval > 0: the cpu deltas attached to all samples emitted for the thread (on-CPU
 samples and first samples of off-CPU groups; rest samples carry 0) plus what is still pending in the thread's
 accumulator equal the running time of the incarnation's bare history — also when groups are dropped for lack
 of a stored stack (the delta then stays pending and goes to the next sample) — and no checked arithmetic fails. -/
-theorem C12_conv_cpu_partial (s : Conv.St) (hi : 0 < s.cfg.interval) (hoc : s.cfg.offCpu.isSome = true) (pid tid h : Nat)
+theorem C12_thread_cpu (s : Conv.St) (hi : 0 < s.cfg.interval) (hoc : s.cfg.offCpu.isSome = true) (pid tid h : Nat)
     (rs : List TRec) (ho : TOrdered s.cfg (none, H.init) rs) :
     cpuSum (threadRun s pid tid h rs).out + (threadRun s pid tid h rs).th.cs.onAcc
       = (spec (timed s.cfg rs)).running ∧ (threadRun s pid tid h rs).safe = true := by
@@ -191,14 +192,14 @@ theorem C12_conv_cpu_partial (s : Conv.St) (hi : 0 < s.cfg.interval) (hoc : s.cf
   rw [← threadSpec_eq]
   exact h1
 
-/-- **Off-CPU time, converter level**, with the dropped-group caveat as a proven characterisation: the units
+/-- **Off-CPU time, thread level**, with the dropped-group caveat as a proven characterisation: the units
 (sample counts) of the groups that were turned into samples (`units`) plus the units of the groups dropped at a
 wake-up without a stored off-CPU stack (`dropped`; `threadStep` adds to it exactly then) account, together with
 the carried remainder (< interval) and the still open sleep, for the sleeping time of the incarnation's bare
 history; and unless a group of more than 2^31 units occurred (`sat`, the `i32` saturation), the weights of the
 emitted off-CPU samples add up to `units · off_cpu_weight_per_sample`. So sleeping time is lost from the profile
 exactly through `dropped` (and through `sat`). -/
-theorem C12_conv_offcpu_partial (s : Conv.St) (hi : 0 < s.cfg.interval) (hoc : s.cfg.offCpu.isSome = true)
+theorem C12_thread_offcpu (s : Conv.St) (hi : 0 < s.cfg.interval) (hoc : s.cfg.offCpu.isSome = true)
     (pid tid h : Nat) (rs : List TRec) (ho : TOrdered s.cfg (none, H.init) rs) :
     let r := threadRun s pid tid h rs
     r.th.cs.offAcc < s.cfg.interval ∧
@@ -213,6 +214,73 @@ theorem C12_conv_offcpu_partial (s : Conv.St) (hi : 0 < s.cfg.interval) (hoc : s
   have key := tinv_offcpu hinv
   rw [← threadSpec_eq]
   exact key
+
+/-! ### Converter level: `Conv.run cfg rs`
+
+The thread-level theorems above are about `threadRun` — the thread-level functions iterated over the records of
+one thread. `Conv.thread_of_run` (`Lemmas/ConvCsRun.lean`, built on the observation lemmas of `Lemmas/ConvObs.lean`)
+is the binding invariant that lifts them to whole conversions: along `Conv.run cfg rs` the thread object bound to
+(pid, tid) is carried unchanged between the records of that thread — `lastTs`, `context_switch_data` and
+`off_cpu_stack` are rewritten only by `commitThread` with the result of the thread-level function on exactly that
+object (on-demand creation, renames, FORKs, MMAP2 records and the records of every other thread leave the triple
+alone) — and the samples emitted for it are appended to the buffer of its process, tagged with its tid.
+
+Quantifier: default options (`reuse = false`) and histories without EXIT / EXEC records (`CsSpec.hasCut rs =
+false`) — exactly the histories on which `judgeCs` evaluates its per-thread clauses (2) Σ cpu deltas = running time
+and (3) Σ off-CPU weights + dropped = accounted units. (With EXIT / EXEC the triple is reset at the cut — also part
+of the observation lemmas, `obs_exit` / `obs_comm` — but a non-main thread's earlier incarnation leaves its samples
+in the same buffer under the same tid; the per-incarnation form of the statement is not proved.) -/
+
+/-- the samples `Conv.run cfg rs` holds for thread (pid, tid), the thread's context-switch data, and the thread run
+over the thread's own records -/
+theorem C12_conv_binding (cfg : Config) (rs : List Conv.Rec) (hr : cfg.reuse = false)
+    (hcut : ConvSpec.CsSpec.hasCut rs = false) (pid tid : Nat) :
+    (threadBuf (Conv.run cfg rs) pid tid).map esamp =
+      (threadRun (Conv.St.init cfg) pid tid 0 (trecs cfg pid tid rs)).out.map esamp ∧
+    threadCs (Conv.run cfg rs) pid tid = (threadRun (Conv.St.init cfg) pid tid 0 (trecs cfg pid tid rs)).th.cs ∧
+    ((Conv.run cfg rs).bad = false → (threadRun (Conv.St.init cfg) pid tid 0 (trecs cfg pid tid rs)).safe = true) := by
+  have h := thread_of_run cfg rs hr hcut pid tid
+  refine ⟨h.buf, ?_, h.safe⟩
+  unfold threadCs
+  rw [h.tq]; rfl
+
+/-- **CPU time, converter level.** For every configuration with default options, an off-CPU indicator and an
+interval > 0, every record history without EXIT / EXEC, and every thread (pid, tid) whose own records are
+time-ordered: the cpu deltas of the samples `Conv.run cfg rs` buffered for the thread (on-CPU samples and first
+samples of off-CPU groups; rest samples carry 0) plus what is still pending in the thread's accumulator equal the
+running time of the thread's bare history. -/
+theorem C12_conv_cpu (cfg : Config) (rs : List Conv.Rec) (hr : cfg.reuse = false)
+    (hcut : ConvSpec.CsSpec.hasCut rs = false) (hi : 0 < cfg.interval) (hoc : cfg.offCpu.isSome = true)
+    (pid tid : Nat) (ho : TOrdered cfg (none, H.init) (trecs cfg pid tid rs)) :
+    cpuSum (threadBuf (Conv.run cfg rs) pid tid) + (threadCs (Conv.run cfg rs) pid tid).onAcc
+      = (spec (timed cfg (trecs cfg pid tid rs))).running := by
+  obtain ⟨b1, b2, _⟩ := C12_conv_binding cfg rs hr hcut pid tid
+  have h := (C12_thread_cpu (Conv.St.init cfg) hi hoc pid tid 0 (trecs cfg pid tid rs) ho).1
+  rw [cpuSum_esamp b1, b2]
+  exact h
+
+/-- **Off-CPU time, converter level**, with the dropped-group caveat as a proven characterisation (`units` /
+`dropped` / `sat` are the ghost counters of the thread run over the thread's own records: a group's units go to
+`dropped` exactly when no off-CPU stack was stored at the wake-up, `sat` is set exactly when a group stood for more
+than 2^31 samples): accounted units, the carried remainder (< interval) and the still open sleep add up to the
+sleeping time of the thread's bare history, and unless `sat` the weights of the off-CPU samples buffered for the
+thread by `Conv.run cfg rs` add up to `units · off_cpu_weight_per_sample`. -/
+theorem C12_conv_offcpu (cfg : Config) (rs : List Conv.Rec) (hr : cfg.reuse = false)
+    (hcut : ConvSpec.CsSpec.hasCut rs = false) (hi : 0 < cfg.interval) (hoc : cfg.offCpu.isSome = true)
+    (pid tid : Nat) (ho : TOrdered cfg (none, H.init) (trecs cfg pid tid rs)) :
+    let r := threadRun (Conv.St.init cfg) pid tid 0 (trecs cfg pid tid rs)
+    (threadCs (Conv.run cfg rs) pid tid).offAcc < cfg.interval ∧
+    (r.units + r.dropped) * cfg.interval + (threadCs (Conv.run cfg rs) pid tid).offAcc
+      + (match (spec (timed cfg (trecs cfg pid tid rs))).last, (spec (timed cfg (trecs cfg pid tid rs))).sleepStart with
+         | some (now, false), some s0 => now - s0
+         | _, _ => 0)
+      = (spec (timed cfg (trecs cfg pid tid rs))).sleeping ∧
+    (r.sat = false → offWeight (threadBuf (Conv.run cfg rs) pid tid) = r.units * cfg.offWeight) := by
+  intro r
+  obtain ⟨b1, b2, _⟩ := C12_conv_binding cfg rs hr hcut pid tid
+  have h := C12_thread_offcpu (Conv.St.init cfg) hi hoc pid tid 0 (trecs cfg pid tid rs) ho
+  rw [offWeight_esamp b1, b2]
+  exact h
 
 /-! ### Non-vacuity: the history of the repo's own unit test satisfies the hypotheses, and the
 conclusions are the numbers that test asserts. -/
@@ -229,7 +297,7 @@ example : (run 10 C12_testHistory).handed = 30 ∧ (spec C12_testHistory).runnin
 example : (step 10 (run 10 (C12_testHistory.take 4)).st .consume).2.2 = some 10 := by decide
 
 /-- the same history at converter level (every switch-out announced by a `sched_switch` sample): the hypotheses
-of `C12_conv_*_partial` hold and the emitted samples are the ones the repo's test expects
+of `C12_thread_*` / `C12_conv_*` hold and the emitted samples are the ones the repo's test expects
 (time, weight, cpu delta, synthesized) -/
 def C12_convHistory : List TRec :=
   [.switchIn 0, .sched 3 [], .switchOut 3, .switchIn 5, .sample 12 0 [], .sched 13 [], .switchOut 13, .switchIn 15,
@@ -242,3 +310,18 @@ example : TOrdered C12_convSt.cfg (none, H.init) C12_convHistory := by decide
 example : ((threadRun C12_convSt 1 2 0 C12_convHistory).out.map (fun u => (u.t, u.weight, u.cpu, u.synth))) =
     [(12, 1, 10, false), (24, 1, 4, true), (37, 1, 3, true), (47, 1, 0, true), (51, 1, 3, false), (61, 1, 10, false)] := by
   decide
+
+
+/-- the same history as records of a conversion (pid 1, tid 2; another thread's records in between): the hypotheses of
+`C12_conv_cpu` / `C12_conv_offcpu` hold, and the buffer of the run holds the expected samples -/
+def C12_runHistory : List Conv.Rec :=
+  [.switchIn 1 2 0, .sched 1 2 3 false 0 [], .switchOut 1 2 3, .sample 1 3 4 false 0 0 [], .switchIn 1 2 5,
+   .sample 1 2 12 false 0 0 [], .sched 1 2 13 false 0 [], .switchOut 1 2 13, .switchIn 1 2 15]
+
+def C12_runCfg : Conv.Config := { offCpu := some .contextSwitches, interval := 10 }
+
+example : C12_runCfg.reuse = false ∧ ConvSpec.CsSpec.hasCut C12_runHistory = false ∧
+    TOrdered C12_runCfg (none, H.init) (trecs C12_runCfg 1 2 C12_runHistory) := by decide
+example : (threadBuf (Conv.run C12_runCfg C12_runHistory) 1 2).map (fun u => (u.t, u.cpu, u.synth)) = [(12, 10, false)] ∧
+    (threadCs (Conv.run C12_runCfg C12_runHistory) 1 2).onAcc = 1 ∧
+    (spec (timed C12_runCfg (trecs C12_runCfg 1 2 C12_runHistory))).running = 11 := by decide
